@@ -291,6 +291,13 @@ static Json::Value genC15(Rng& rng) {
     plan["config"]["rulesets"][0]["detectors"][0][1]["args"]["requery"] = "true";
   }
   plan["clock_off"] = (Json::Int64)rng.range(0, 999999999);
+  if (rng.chance(0.3)) {
+    // a consumer that only ever asks for the per-tick rates, never for the
+    // cumulative counters they are the deltas of (what kill_by_pg_scan and
+    // kill_by_io_cost do)
+    plan["rates_only"] = true;
+    plan["config"]["rulesets"][0]["detectors"][0][1]["args"]["rates_only"] = "true";
+  }
   return plan;
 }
 
@@ -340,6 +347,7 @@ static void runC15() {
     temporal.devs[k] = R.plan["io_devs"][k].asString();
   temporal.hdd = coeffsFrom(R.plan["hdd_coeffs"]);
   temporal.ssd = coeffsFrom(R.plan["ssd_coeffs"]);
+  const bool ratesOnly = R.plan.get("rates_only", false).asBool();
   temporal.temporalFrom = R.plan.get("temporal_from", 0).asInt();
   int temporalFrom = temporal.temporalFrom;
   for (const auto& t : R.plan["temporal_skip"])
@@ -610,6 +618,11 @@ static void runC15() {
                      "memory_growth", "io_cost_cumulative",
                      "pg_scan_cumulative"})
         skip.insert(k);
+    if (ratesOnly) {
+      skip.insert("io_cost_cumulative");
+      skip.insert("pg_scan_cumulative");
+      probe("rates-only-sample");
+    }
     // after a gap the per-tick deltas are judged strictly (they must not
     // span it); whether the moving average restarts or carries on over a
     // gap is not something the statement decides
